@@ -15,6 +15,7 @@ type Spec struct {
 	NoHandler []string    // With ids that must return an error and never run
 	Closes    int         // expected Conn.Close calls (-1: do not check)
 	Query     *QSpec      // query-event scenarios (C15 oracle)
+	Store     bool        // store contention scenarios (C11 oracle)
 	Epochs    int
 }
 
@@ -188,6 +189,9 @@ func Judge(sp *Spec, r *vsched.Result) []string {
 	}
 	if sp.Query != nil {
 		out = append(out, JudgeQuery(sp.Query, r)...)
+	}
+	if sp.Store {
+		return JudgeStore(r)
 	}
 	return out
 }
